@@ -139,11 +139,27 @@ fn count_lines(text: &[u8]) -> (r: usize)
     ensures r == lines(text@).len(),
 { unimplemented!() }
 
-/// Character count of source[line_start..][..column] (non-ASCII lines): abstract here, covered by
-/// the Kani twin C13.k.locate_once_utf8 / _bom.
+/// The number of characters of a piece of text, as core's `str::chars().count()` computes it from the
+/// bytes: left UNINTERPRETED (character decoding is outside the Verus subset), so that the only thing
+/// used about it is that it is a function of the bytes - plus the two facts assumed of the exec
+/// function below.  The Kani twins run the real counting on all short valid UTF-8 texts.
+uninterp spec fn chars_count(s: Seq<u8>) -> int;
+
+/// `s.chars().count()` of a `str` slice (trusted: at most one character per byte; exactly one per byte
+/// when every byte is ASCII).
 #[verifier::external_body]
-fn utf8_column(source: &[u8], line_start: TextSize, column: u32) -> (r: u32)
+fn str_chars_count(s: &[u8]) -> (r: usize)
+    ensures r as int == chars_count(s@), 0 <= chars_count(s@) <= s@.len(),
+        (forall|k: int| 0 <= k < s@.len() ==> (#[trigger] s@[k]) < 128u8) ==> chars_count(s@) == s@.len(),
 { unimplemented!() }
+
+/// The same two facts as an axiom about the spec function (trusted, see str_chars_count).
+#[verifier::external_body]
+proof fn axiom_chars_count(s: Seq<u8>)
+    ensures 0 <= chars_count(s) <= s.len(),
+        (forall|k: int| 0 <= k < s.len() ==> (#[trigger] s[k]) < 128u8) ==> chars_count(s) == s.len(),
+{
+}
 
 /// str::is_ascii / <[u8]>::is_ascii: every byte is below 128.
 #[verifier::external_body]
@@ -486,6 +502,8 @@ spec fn located(b: Seq<u8>, st: LinearLocatorState, o: int, column: OneIndexed) 
     &&& st_wf_at(b, st, o)
     &&& st.line_number.v as int == 1 + nbe(b, o)
     &&& (st.is_ascii ==> column.v as int == o - st.line_start.raw + 1 || (column.v == u32::MAX && o - st.line_start.raw == u32::MAX))
+    // the 1-based CHARACTER column: 1 + the number of characters between the line start (after a BOM) and the offset
+    &&& column.v as int == 1 + chars_count(b.subrange(st.line_start.raw as int, o))
 }
 
 spec fn pre_sub_no_nl(b: Seq<u8>, lo: int, hi: int, k: int) -> bool {
@@ -632,6 +650,8 @@ impl<'a> LinearLocator<'a> {
                 &&& (r.1.is_some() ==> st.cursor == offset && st.line_number.v >= 1)
                 // ... and on an all-ASCII line the 1-based column is the byte distance from that line's first byte
                 &&& (st.is_ascii ==> r.0.v as int == offset.raw - st.line_start.raw + 1 || (r.0.v == u32::MAX && offset.raw - st.line_start.raw == u32::MAX))
+                // ... and in every case the 1-based CHARACTER column (on an ASCII line the two coincide)
+                &&& r.0.v as int == 1 + chars_count(b.subrange(st.line_start.raw as int, offset.raw as int))
             }),
 //@@ ENDSIG
 //@@ SUB 1 <<<if let Some(last_newline) = memrchr2(b'\r', b'\n', focused.as_bytes()) {>>> ==> <<<if let Some(last_newline) = memrchr2(b'\r', b'\n', focused) {>>>
@@ -651,6 +671,7 @@ let lines = UniversalNewlineIterator::from(
             // no line break ends between the line start and the offset: same row
             let b = self.source@; let l = state.line_start.raw as int;
             if 0 <= l <= offset.raw as int <= b.len() && no_nl(b, l, offset.raw as int) { lemma_nbe_flat(b, l, offset.raw as int); }
+            if 0 <= l <= offset.raw as int <= b.len() { axiom_chars_count(b.subrange(l, offset.raw as int)); }
         }
 //@@ ENDAFTER
 //@@ SUBBLOCK 1
@@ -658,7 +679,7 @@ self.source[state.line_start.to_usize()..][..column as usize]
 .chars()
 .count() as u32
 //@@ WITH
-            utf8_column(self.source, state.line_start, column)
+            str_chars_count(&self.source[state.line_start.to_usize()..state.line_start.to_usize() + column as usize]) as u32
 //@@ ENDSUB
 //@@ AFTER 1 <<<let column = offset.to_u32() - line_start;>>>
                     proof {
@@ -874,6 +895,18 @@ proof fn theorem_locators_same_line(idx: Seq<TextSize>, b: Seq<u8>, st: LinearLo
             assert(false);
         }
     }
+}
+
+/// THEOREM (columns): the slice whose characters the line index counts for its column starts where the
+/// incremental locator's line starts, so both count the characters of the SAME bytes: same column,
+/// ASCII or not (chars_count is a function of the bytes).
+proof fn theorem_locators_same_column_slice(idx: Seq<TextSize>, b: Seq<u8>, st: LinearLocatorState, o: int, r: int)
+    requires index_wf(idx, b), st_wf_at(b, st, o), is_row_of(idx, o, r),
+    ensures
+        (if idx[r].raw == 0 && has_bom(b) && o > 0 { 3int } else { idx[r].raw as int }) == st.line_start.raw,
+{
+    theorem_locators_same_line(idx, b, st, o, r);
+    if r > 0 { assert(idx[0].raw < idx[r].raw); }
 }
 
 /// THEOREM (rows): the row a well-formed line index reports for an offset (0-based r, is_row_of) is the
